@@ -452,3 +452,8 @@ def run(chk):
     chk.guard('C04.R', check_function_statement, chk)
     chk.guard('C04.B', check_binding, chk)
     chk.guard('C04.O', check_callbacks, chk)
+    # parameter names reach the binding loop through the parser's argument split (shared with C10.A)
+    from .c10 import check_arg_split
+    from ..lowering import ParserModel
+    chk.rule('C10.A', 'shared with C10: the parameter-list split consumes exactly the separator the function-begin regex allows (no blank ends up inside a parameter name)')
+    chk.guard('C10.A', lambda: check_arg_split(chk, ParserModel(chk.repo, 'C10.A')))
